@@ -201,6 +201,19 @@ class TestPoolEviction:
             # (we reuse workers, so we may not hit 3 spawns)
             assert m.returns >= 2
 
+    def test_max_idle_zero_keeps_nothing(self) -> None:
+        """max_idle=0: a returned worker is terminated, never kept idle."""
+        with WorkerPool(max_idle=0) as pool:
+            cmd = _pool_worker_cmd()
+            with pool.connect(PoolTestService, cmd) as svc:
+                pid1 = svc.get_pid()
+            assert pool.idle_count == 0
+            assert pool.metrics.evictions_max == 1
+            with pool.connect(PoolTestService, cmd) as svc:
+                pid2 = svc.get_pid()
+            assert pid1 != pid2
+            assert pool.idle_count == 0
+
     @pytest.mark.skipif(sys.platform == "win32", reason="SIGKILL not available on Windows")
     def test_dead_process_handling(self) -> None:
         """Kill idle subprocess, next borrow spawns new."""
